@@ -46,8 +46,15 @@ class Pipeline:
         self.main, self.thread_edges = mains[0]
         self.compressor = self.writer = None
         self.compress_edges, self.writer_edges = [], []
+        self.threaded_producers = []
         for e in self.thread_edges:
             t = e.target
+            # a Thread target that only *puts* on a queue is a producer moved off the calling thread
+            puts = calls_in(t.node, lambda c: isinstance(c.func, ast.Attribute) and c.func.attr == 'put' and U(c.func.value) in t.params)
+            gets = calls_in(t.node, lambda c: isinstance(c.func, ast.Attribute) and c.func.attr == 'get' and U(c.func.value) in t.params)
+            if puts and not gets:
+                self.threaded_producers.append(e)
+                continue
             if calls_in(t.node, lambda c: U(c.func).endswith('compress_numpy')):
                 self.compressor = t
                 self.compress_edges.append(e)
@@ -79,8 +86,8 @@ class Pipeline:
         self.handle = U(we.binding.get(self.handle_param)) if we.binding.get(self.handle_param) is not None else None
         # producers
         self.producers = []
-        for e in G.callees(self.main):
-            if e.kind == 'direct' and e.target is not None:
+        for e in list(G.callees(self.main)):
+            if (e.kind == 'direct' or e in self.threaded_producers) and e.target is not None:
                 for p, v in e.binding.items():
                     if U(v) == self.q_in and calls_in(e.target.node, lambda c, p=p: isinstance(
                             c.func, ast.Attribute) and c.func.attr == 'put' and U(c.func.value) == p):
